@@ -274,8 +274,11 @@ def gen_c10_cases(fmts, bwords, rng, tier):
         else:
             bw = list(bwords.get(F.code, []))
             rng.shuffle(bw)
-            nb = (300 if F.bpp == 16 else 420) if quick else (1500 if F.bpp == 16 else 2500)
+            nb = (300 if F.bpp == 16 else 420) if quick else 2500
             vals = bw[:nb] + [rng.getrandbits(F.bpp) for _ in range(120 if quick else 1200)]
+            all16 = (not quick) and F.bpp == 16 and F.packed       # thorough: every 16-bit value as well
+        if F.bpp <= 8 or F.type == TYPE_YV12 or quick or not (F.bpp == 16 and F.packed):
+            all16 = False
         for C in (A8, RF):
             if F.type == TYPE_YV12:
                 for k in range(4 if quick else 16):
@@ -287,6 +290,11 @@ def gen_c10_cases(fmts, bwords, rng, tier):
                                   % (F.code, C.code, w_, h_, stride_, sy, sx, dx, dimgw, w, hx(buf), hx(dst))))
                 continue
             rows = list(chunks(vals, ROW))
+            if all16:        # all 65536 values, half of them through each canonical format
+                allv = list(range(65536))
+                rng.shuffle(allv)
+                half = allv[:32768] if C is A8 else allv[32768:]
+                rows += list(chunks(half, ROW))
             k = 0
             for row in rows:
                 # every value at every offset for bpp <= 8; otherwise the offsets cycle over the rows
@@ -444,7 +452,7 @@ def run_c10(args):
     chk.sample({"script_line": lines[-1][:300]})
 
     # 3. execute: default implementation chain, and general implementation only
-    nb = 12
+    nb = 12 if quick else 48
     traces = run_driver(exe, lines, wd, "def", nb)
     traces_g = run_driver(exe, lines, wd, "gen", nb, env_extra=GENERAL_ONLY)
     for tr in traces + traces_g:
